@@ -8,6 +8,7 @@ CONSTANTS
   FIXOHEXP = TRUE
   FIXOHFLG = TRUE
   FIXOHSEC = TRUE
+  PEERIMPL = FALSE
   XorAcc <- SymXor
   MAXLEN = 2
   GEN = FALSE
